@@ -1,6 +1,190 @@
-(* C20 — placeholder while the proofs are being written *)
-From Coq Require Import ZArith List String Bool.
-From TD Require Import Model.C20_Apply Model.C20_Sched.
-Theorem C20_placeholder : True.
-Proof. exact I. Qed.
-Print Assumptions C20_placeholder.
+(* C20 — apply / named_apply honour their contract for every option combination.  Property theorems only.
+   Model: Model/C20_Apply.v (_apply_nest, front-ends, _validate_value / _set_str on the way in, NonTensorData, lazy
+   stacks), Model/C20_Sched.v (_multithread_apply_flat / _multithread_rebuild).  Reference: Model/C20_Spec.v.
+   The user function fn, its result type A and the is_leaf predicate are universally quantified everywhere. *)
+From Coq Require Import ZArith List String Bool Permutation.
+Import ListNotations.
+From TD Require Import Model.C20_Apply Model.C20_Sched Model.C20_Spec
+     Proofs.C20_SpecP Proofs.C20_FrameP Proofs.C20_SchedP Proofs.C20_WitnessP.
+Open Scope string_scope.
+
+(* ------------------------------------------------------------------ apply_spec *)
+(* the statement at full strength: for every dict-shaped self, all operands, every out=, every point of the lattice *)
+Definition C20_apply_spec_full_statement : Prop :=
+  forall A (o : opts) fn con propagate so sm sf (others : list (tree A)) out names r,
+    wf_keys A sf = true ->
+    front A o fn con propagate (Node so sm sf) others out names = Ok r ->
+    ref_apply A o fn con (Node so sm sf) others out = ROk (option_map (erase_t A) r).
+
+(* proved on the complement of C20-b: without default=, or when no nested tensordict reuses a key of the level that
+   holds it (then the stand-in self.empty(recurse=True) of the parent level cannot be hit) *)
+Theorem C20_apply_spec_partial :
+  forall A (o : opts) fn con propagate so sm sf (others : list (tree A)) out names r,
+    wf_keys A sf = true ->
+    (o_default o = true -> nohit A sf = true) ->
+    front A o fn con propagate (Node so sm sf) others out names = Ok r ->
+    ref_apply A o fn con (Node so sm sf) others out = ROk (option_map (erase_t A) r).
+Proof. exact apply_spec. Qed.
+Print Assumptions C20_apply_spec_partial.
+
+(* /repo violates the full statement (C20-b): fn receives an empty tensordict where the default is due *)
+Theorem C20_apply_spec_refuted :
+  exists (o : opts) fn so sm sf (others : list (tree Z)) r,
+    wf_keys Z sf = true /\ o_default o = true /\ nohit Z sf = false /\
+    front Z o fn false false (Node so sm sf) others None None = Ok r /\
+    ref_apply Z o fn false (Node so sm sf) others None <> ROk (option_map (erase_t Z) r).
+Proof.
+  destruct skeleton_hit_witness as (W & H & r & F & R).
+  exists (with_default base_opts), (fn_of []), (Old 10%Z), m0, (FCons "n" (Node (Old 11%Z) m0 (FCons "n" (lf 1) FNil)) FNil), [other_b], r.
+  repeat split; assumption.
+Qed.
+Print Assumptions C20_apply_spec_refuted.
+
+(* ------------------------------------------------------------------ apply_mutates_only *)
+(* not in place: every object of the caller that occurs in the result is an object of out= (none without out=), and
+   with out= the object returned is out *)
+Theorem C20_apply_mutates_only_out :
+  forall A (o : opts) fn con propagate so sm sf (others : list (tree A)) out names r,
+    o_inplace o = false ->
+    front A o fn con propagate (Node so sm sf) others out names = Ok (Some r) ->
+    incl (olds_t A r) (match out with Some X => olds_t A X | None => [] end)
+    /\ (forall oo om og, out = Some (Node oo om og) -> exists m f, r = Node oo m f).
+Proof. exact result_objects. Qed.
+Print Assumptions C20_apply_mutates_only_out.
+
+(* in place: self is returned with the same objects, the same keys in the same order and the same leaf storages *)
+Theorem C20_apply_mutates_only_inplace :
+  forall A (o : opts) fn con propagate so sm sf (others : list (tree A)) out names r,
+    o_inplace o = true -> wf_keys A sf = true ->
+    front A o fn con propagate (Node so sm sf) others out names = Ok (Some r) ->
+    shape_t A r = shape_t A (Node so sm sf).
+Proof. exact inplace_shape. Qed.
+Print Assumptions C20_apply_mutates_only_inplace.
+
+(* result creation: batch size / device as requested else self's, names erased when the batch size is overridden,
+   locked iff propagate_lock and self is locked *)
+Theorem C20_new_result_metadata :
+  forall A (o : opts) fn con propagate so sm sf (others : list (tree A)) names ob m f,
+    o_inplace o = false ->
+    front A o fn con propagate (Node so sm sf) others None names = Ok (Some (Node ob m f)) ->
+    m_bs m = match o_bs o with Some b => b | None => m_bs sm end
+    /\ m_dev m = match o_dev o with Some d => d | None => m_dev sm end
+    /\ m_lock m = (propagate && m_lock sm)
+    /\ (o_checked o = true ->
+          m_names m = match names with Some n => n | None => match o_bs o with Some _ => None | None => m_names sm end end).
+Proof. exact new_result_meta. Qed.
+Print Assumptions C20_new_result_metadata.
+
+(* ------------------------------------------------------------------ mt_equals_st *)
+(* every permutation of the completion order gives the same answer *)
+Theorem C20_mt_order_free :
+  forall A (o : opts) fn con propagate (self : tree A) others out names pi1 pi2,
+    Permutation pi1 pi2 ->
+    mt_front A o fn con propagate self others out names pi1 = mt_front A o fn con propagate self others out names pi2.
+Proof. exact mt_order_free. Qed.
+Print Assumptions C20_mt_order_free.
+
+Definition C20_mt_equals_st_full_statement : Prop :=
+  forall A (o : opts) fn con propagate so sm sf (others : list (tree A)) out names pi x,
+    (forall tasks lfs, flat_items A o (o_default o) con [] sm sf others sf 0 = Ok (tasks, lfs) ->
+                       forall id, id < List.length tasks -> In id pi) ->
+    st_front A o fn con propagate (Node so sm sf) others out names = MOk x ->
+    mt_front A o fn con propagate (Node so sm sf) others out names pi = MOk x.
+
+(* proved on the complement of S15, S16, C12-b, C12-c, C20-d: no out=, no default=, filter_empty True or False, no
+   names=, and — in place — no non-tensor entry; there the two forms agree on results AND on the exception class *)
+Theorem C20_mt_equals_st_partial :
+  forall A (o : opts) fn b, o_fe o = Some b -> o_default o = false ->
+  forall con propagate so sm sf (others : list (tree A)) pi,
+    (o_inplace o = true -> nont_free A sf = true) ->
+    (forall tasks lfs, flat_items A o false con [] sm sf others sf 0 = Ok (tasks, lfs) ->
+                       forall id, id < List.length tasks -> In id pi) ->
+    match flat_items A o false con [] sm sf others sf 0 with
+    | Ok _ => mt_front A o fn con propagate (Node so sm sf) others None None pi
+              = st_front A o fn con propagate (Node so sm sf) others None None
+    | _ => forall r, st_front A o fn con propagate (Node so sm sf) others None None <> MOk r
+                     /\ mt_front A o fn con propagate (Node so sm sf) others None None pi <> MOk r
+    end.
+Proof. exact mt_equals_st. Qed.
+Print Assumptions C20_mt_equals_st_partial.
+
+(* the suspected defects of the notes, settled: /repo violates mt = st in five ways *)
+Theorem C20_mt_out_refuted :            (* S16 *)
+  exists (o : opts) fn self out pi x,
+    st_front Z o fn false false self [] (Some out) None = MOk (Some x)
+    /\ mt_front Z o fn false false self [] (Some out) None pi = MCyclic.
+Proof. destruct mt_out_witness as ((x & H1) & H2). do 6 eexists. split; [exact H1|exact H2]. Qed.
+Print Assumptions C20_mt_out_refuted.
+
+Theorem C20_mt_default_refuted :        (* S15 *)
+  exists (o : opts) fn self other pi x,
+    o_default o = true
+    /\ st_front Z o fn false false self [other] None None = MOk (Some x)
+    /\ mt_front Z o fn false false self [other] None None pi = MRaised EKey.
+Proof. destruct mt_default_witness as ((x & H1) & H2). do 6 eexists. split; [|split; [exact H1|exact H2]]. reflexivity. Qed.
+Print Assumptions C20_mt_default_refuted.
+
+Theorem C20_mt_filter_empty_none_refuted :      (* C12-b *)
+  exists (o : opts) fn self pi x y,
+    o_fe o = None
+    /\ st_front Z o fn false false self [] None None = MOk (Some x)
+    /\ mt_front Z o fn false false self [] None None pi = MOk (Some y)
+    /\ erase_t Z x <> erase_t Z y.
+Proof. destruct mt_filter_empty_none_witness as (x & y & H1 & H2 & H3). do 6 eexists. split; [|split; [exact H1|split; [exact H2|exact H3]]]. reflexivity. Qed.
+Print Assumptions C20_mt_filter_empty_none_refuted.
+
+Theorem C20_mt_names_refuted :          (* C12-c *)
+  exists (o : opts) fn self names pi x y,
+    st_front Z o fn false false self [] None (Some names) = MOk (Some x)
+    /\ mt_front Z o fn false false self [] None (Some names) pi = MOk (Some y)
+    /\ x <> y /\ erase_t Z x = erase_t Z y.
+Proof. destruct mt_names_witness as (x & y & H1 & H2 & H3 & H4). do 7 eexists. split; [exact H1|split; [exact H2|split; [exact H3|exact H4]]]. Qed.
+Print Assumptions C20_mt_names_refuted.
+
+Theorem C20_mt_checked_device_refuted : (* C20-d *)
+  exists (o : opts) fn self out pi x,
+    o_checked o = true
+    /\ st_front Z o fn false false self [] (Some out) None = MOk (Some x)
+    /\ mt_front Z o fn false false self [] (Some out) None pi = MRaised ERuntime.
+Proof. destruct mt_checked_device_witness as ((x & H1) & H2). do 6 eexists. split; [|split; [exact H1|exact H2]]. reflexivity. Qed.
+Print Assumptions C20_mt_checked_device_refuted.
+
+(* ------------------------------------------------------------------ two more defects of the front-ends *)
+Theorem C20_inplace_locked_nontensor_refuted :  (* C20-c *)
+  exists (o : opts) fn self x,
+    o_inplace o = true
+    /\ front Z o fn false false self [] None None = Raised EValue
+    /\ ref_apply Z o fn false self [] None = ROk (Some x).
+Proof. destruct inplace_locked_nontensor_witness as (H1 & x & H2). do 4 eexists. split; [|split; [exact H1|exact H2]]. reflexivity. Qed.
+Print Assumptions C20_inplace_locked_nontensor_refuted.
+
+Theorem C20_named_apply_out_refuted :           (* C20-a *)
+  exists (o : opts) fn self out oid m f m' f',
+    front Z o fn false false self [] (Some out) None = Ok (Some (Node (Old oid) m f))
+    /\ named_apply_front Z o fn false false self [] (Some out) None = Ok (Some (Node New m' f')).
+Proof. destruct named_apply_out_witness as ((m & f & H1) & (m' & f' & H2)). do 9 eexists. split; [exact H1|exact H2]. Qed.
+Print Assumptions C20_named_apply_out_refuted.
+
+(* ------------------------------------------------------------------ non-vacuity *)
+(* a three-level self with a non-tensor entry, a nested empty node, an operand with permuted / extra / missing keys, default=,
+   filter_empty=None and a None result: inside the domain of C20_apply_spec_partial, and the call returns *)
+Example C20_ex_apply_spec :
+  let o := with_default (with_fe base_opts None) in
+  wf_keys Z self_ex_forest = true /\ nohit Z self_ex_forest = true
+  /\ exists x, front Z o (fn_of [3%Z]) false false self_ex [other_ex] None None = Ok (Some x)
+               /\ List.length (fkeys Z (match x with Node _ _ f => f | _ => FNil end)) = 2.
+Proof. exact example_apply_spec. Qed.
+Example C20_ex_inplace :
+  let o := with_inplace base_opts in
+  exists x, front Z o (fn_of [3%Z]) false false self_ex [] None None = Ok (Some x) /\ x <> self_ex.
+Proof. exact example_inplace. Qed.
+Example C20_ex_out :
+  let o := base_opts in
+  exists x, front Z o (fn_of []) false false nested2 [] (Some out2) None = Ok (Some x) /\ olds_t Z x = [30%Z; 32%Z].
+Proof. exact example_out. Qed.
+Example C20_ex_mt :
+  let o := with_checked base_opts in
+  flat_items Z o false false [] m0 (match nested2 with Node _ _ f => f | _ => FNil end) [] (match nested2 with Node _ _ f => f | _ => FNil end) 0
+  = Ok ([mkTask Z None (lf 1) []; mkTask Z None (lf 2) []], [LFut 0; LList [LFut 1]])
+  /\ exists x, mt_front Z o (fn_of []) false false nested2 [] None None [1; 0] = MOk (Some x).
+Proof. exact example_mt. Qed.
